@@ -866,8 +866,11 @@ func (vc *FuncVC) setupParams() {
 		if _, ok := t.Underlying().(*types.Slice); ok {
 			pt := vc.named("p_"+name+"_ptr", SInt)
 			ln := vc.named("p_"+name+"_len", SInt)
-			vc.assume(And(Ge(ln, IntLit(0)), Lt(IntLit(0), pt), Le(Add(pt, ln), vc.entry.cnt), Le(ln, IntLit(4096))))
-			v = &Val{Kind: vSlice, Elems: []*Val{{T: pt}, {T: ln}, vc.freshCap(ln)}, GoType: t}
+			vc.assume(And(Ge(ln, IntLit(0)), Lt(IntLit(0), pt), Le(Add(pt, ln), vc.entry.cnt), Lt(ln, BigLit(pow2big(62)))))
+			capV := vc.freshCap(ln)
+			// the whole backing array (spare cells included) was allocated before the call
+			vc.assume(Le(Add(pt, Mul(IntLit(vc.L.sizeOf(t.Underlying().(*types.Slice).Elem())), capV.T)), vc.entry.cnt))
+			v = &Val{Kind: vSlice, Elems: []*Val{{T: pt}, {T: ln}, capV}, GoType: t}
 		} else if s, ok := scalarSort(t); ok {
 			c := vc.named("p_"+name, s)
 			vc.assume(rangeFact(c, t))
